@@ -2,7 +2,7 @@
 # usage: tools/confirm_mutant.sh <seeded dir> <crate> [more crates...]
 # Confirms in a scratch worktree (/tmp/confirm) that: the patch applies and compiles, the existing
 # tests of the given crates still pass with it, the demo fails with it and passes without it.
-# Appends the outcome to <seeded dir>/confirm.txt
+# Appends the outcome to <seeded dir>/confirm.txt. CONFIRM_FEATURES='--features x' is passed to the demo runs.
 d="$(realpath "$1")"; shift
 crates="$*"
 W=/tmp/confirm
@@ -16,12 +16,12 @@ pk=""; for c in $crates; do pk="$pk -p $c"; done
 out="$d/confirm.txt"; : > "$out"
 # without the change: demo passes
 cp "$d/demo.rs" "$demo_path"
-if cargo test --offline -p "$first" --test "$demo_name" >"$W/log0" 2>&1; then echo "demo_passes_without_change: yes" >>"$out"; else echo "demo_passes_without_change: NO" >>"$out"; tail -5 "$W/log0" >>"$out"; fi
+if cargo test --offline -p "$first" $CONFIRM_FEATURES --test "$demo_name" >"$W/log0" 2>&1; then echo "demo_passes_without_change: yes" >>"$out"; else echo "demo_passes_without_change: NO" >>"$out"; tail -5 "$W/log0" >>"$out"; fi
 rm -f "$demo_path"
 # with the change
 if git apply "$d/patch.diff"; then echo "patch_applies: yes" >>"$out"; else echo "patch_applies: NO" >>"$out"; exit 1; fi
 if cargo test --offline $pk >"$W/log1" 2>&1; then echo "existing_tests_pass_with_change: yes ($crates)" >>"$out"; else echo "existing_tests_pass_with_change: NO" >>"$out"; grep -E "FAILED|failed|error(\[|:)" "$W/log1" | head -5 >>"$out"; fi
 cp "$d/demo.rs" "$demo_path"
-if cargo test --offline -p "$first" --test "$demo_name" >"$W/log2" 2>&1; then echo "demo_fails_with_change: NO (passed)" >>"$out"; else echo "demo_fails_with_change: yes" >>"$out"; fi
+if cargo test --offline -p "$first" $CONFIRM_FEATURES --test "$demo_name" >"$W/log2" 2>&1; then echo "demo_fails_with_change: NO (passed)" >>"$out"; else echo "demo_fails_with_change: yes" >>"$out"; fi
 rm -f "$demo_path"; git checkout -- .
 cat "$out"
